@@ -7,7 +7,7 @@ PROP = dict(
     theorems=["C30_guarded", "C30_guarded_accesses", "C30_current", "C30_touch_inputs_fixed", "C30_touch_inputs_partial",
               "C30_no_foreign_state", "C30_touch_inputs_refuted", "C30_predicate", "C30_predicate_gate"],
     open_statements=[
-        "'every contract-state access concerns an input contract' is not open but REFUTED for the order of checks of the unchanged code "
+        "KNOWN FINDING (known_findings.json, class call-reads-code-size-of-contract-not-in-inputs): 'every contract-state access concerns an input contract' is not open but REFUTED for the order of checks of the unchanged code "
         "(C30_touch_inputs_refuted; finding: prepare_call reads contract_size(call.to()) before check_contract_in_inputs, reproduced on the "
         "real interpreter on every run by the oracle class call-reads-code-size-of-contract-not-in-inputs). Proved instead: "
         "C30_touch_inputs_partial / C30_no_foreign_state (everything except that code-size read; no slot, no balance, no write outside the "
@@ -37,7 +37,9 @@ PROP = dict(
     ],
     rule=("script transactions on worlds with contracts that are inputs, contracts deployed but not listed, and undeployed ids: scripts and contracts "
           "CALL / LDC (modes 0,1,2) / CCP / CSIZ / CROO / BAL / TR aimed at all three kinds (0-30% risky targets, some through unreadable pointers), TRO, MINT, BURN, SMO and "
-          "storage instructions inside and outside contracts; plus vmtrace-generated scenarios with a listed callee removed from the inputs in 1/3 of them. "
+          "storage instructions inside and outside contracts; plus vmtrace-generated scenarios with a listed callee removed from the inputs in 1/3 of them; plus two "
+          "deterministic witnesses of the known finding (CALL of a deployed-but-unlisted contract, CALL of an undeployed id). Every transaction is also traced with "
+          "vmtrace::trace and must agree step by step with the probing loop. "
           "Each step that is a contract-related instruction or made a contract-table access: opcode, call stack before/after, named id (read from VM memory "
           "before execution), outcome, accesses (table, id, read/write) from RecStorage. "
           "Predicates: 35 probe instructions (every contract class, LDC modes, allowed controls) through check_predicates and estimate_predicates with a recording storage. "
